@@ -147,6 +147,9 @@ var vmSubsts = []Subst{
 	{File: "internal/runtime/vm/vm.go", Old: "v.re[index].FindStringSubmatch(v.input.Line)", New: "verifFindStringSubmatch(v.re[index], v.input.Line)"},
 	{File: "internal/runtime/vm/vm.go", Old: "v.re[index].FindStringSubmatch(line)", New: "verifFindStringSubmatch(v.re[index], line)"},
 	{File: "internal/runtime/vm/vm.go", Old: "time.Now()", New: "verifNow()"},
+	// the datum's own fallback to the wall clock reads the same clock
+	{File: "internal/metrics/datum/datum.go", Old: "var zeroTime time.Time", New: "var zeroTime time.Time\n\nvar VerifNow = time.Now"},
+	{File: "internal/metrics/datum/datum.go", Old: "time.Now().UTC().UnixNano()", New: "VerifNow().UTC().UnixNano()"},
 }
 
 // ---- VM program corpus ----
@@ -155,46 +158,51 @@ type vmProg struct {
 	Name  string
 	Src   string
 	Quick bool
+	Extra string // further arguments of the family's check function
 }
 
 func vmCorpus() []vmProg {
 	return []vmProg{
-		{"inc", "counter c\n/K1=(\\d+)/ {\n  c++\n}\n", true},
-		{"arith", "counter c\ngauge g\n/K1=(\\d+)/ {\n  c += $1\n  g = $1 * 2 + 1\n}\n", true},
-		{"dim", "counter c by k\n/K1=(\\w+)/ {\n  c[$1]++\n}\n", true},
-		{"elseother", "counter a\ncounter b\ncounter o\n/K1=(\\d+)/ {\n  a++\n} else {\n  b++\n}\notherwise {\n  o++\n}\n", true},
-		{"nestedother", "counter a\ncounter b\ncounter c\n/K1=(\\d+)/ {\n  a++\n} else {\n  /K2=(\\d+)/ {\n    b++\n  }\n  otherwise {\n    c++\n  }\n}\n", true},
-		{"del", "counter c by k\n/K1=(\\w+)/ {\n  c[$1]++\n}\n/K2=(\\w+)/ {\n  del c[$1]\n}\n/K3=(\\w+)/ {\n  del c[$1] after 1h\n}\n", true},
-		{"floatcap", "gauge g\n/K1=(\\d+\\.\\d+)/ {\n  g = $1\n}\n", true},
-		{"text", "text t\n/K1=(\\S+)/ {\n  t = $1\n}\n", true},
-		{"div", "gauge g\ngauge h\n/K1=(\\d+) K2=(\\d+)/ {\n  g = $1 / $2\n  h = $1 % $2\n}\n", true},
-		{"shift", "gauge g\ngauge h\n/K1=(\\d+) K2=(\\d+)/ {\n  g = $1 << $2\n  h = $1 >> $2\n}\n", false},
-		{"cmp", "counter c\n/K1=(\\d+)/ && $1 > 5 {\n  c++\n}\n", true},
-		{"logic", "counter c\ncounter d\n/K1=(\\d+)/ || /K2=(\\d+)/ {\n  c++\n}\n/K1=(\\d+)/ && /K2=(\\d+)/ {\n  d++\n}\n", false},
-		{"len", "gauge g\n/K1=(\\w+)/ {\n  g = len($1)\n}\n", false},
-		{"tolower", "counter c by k\n/K1=(\\w+)/ {\n  c[tolower($1)]++\n}\n", false},
-		{"strtol", "gauge g\n/K1=(\\w+)/ {\n  g = strtol($1, 16)\n}\n", false},
-		{"conv", "gauge g\ngauge f\ntext s\n/K1=(\\S+) K2=(\\d+)/ {\n  g = int($1)\n  f = float($1)\n  s = string($2)\n}\n", true},
-		{"settime", "gauge g\n/K1=(\\d+)/ {\n  settime($1)\n  g = timestamp()\n}\n", true},
-		{"settimelen", "gauge g\n/K1=(\\w+)/ {\n  settime(len($1))\n  g = timestamp()\n}\n", true},
-		{"strptime", "gauge g\n/K1=(\\S+)/ {\n  strptime($1, \"2006-01-02\")\n  g = timestamp()\n}\n", true},
-		{"strptime2", "gauge g\ngauge h\n/K1=(\\S+)/ {\n  strptime($1, \"20060102\")\n  g = timestamp()\n}\n/K2=(\\S+)/ {\n  strptime($1, \"02012006\")\n  h = timestamp()\n}\n", true},
-		{"stop", "counter a\ncounter b\n/K1=(\\d+)/ {\n  a++\n  stop\n}\n/K2=(\\d+)/ {\n  b++\n}\n", true},
-		{"deco", "counter a\ncounter b\ndef deco {\n  /K1=(\\d+)/ {\n    a++\n    next\n  }\n}\n@deco {\n  b++\n}\n", true},
-		{"filename", "counter c by f\n/K1=(\\d+)/ {\n  c[getfilename()]++\n}\n", false},
-		{"histo", "histogram h buckets 1, 2, 4\n/K1=(\\d+)/ {\n  h = $1\n}\n", false},
-		{"smatch", "counter c\n/K1=(\\w+)/ {\n  $1 =~ /a/ {\n    c++\n  }\n}\n", false},
-		{"subst", "text t\n/K1=(\\w+)/ {\n  t = subst(\"a\", \"b\", $1)\n}\n", false},
-		{"pow", "gauge g\n/K1=(\\d+)/ {\n  g = $1 ** 2\n}\n", false},
-		{"bitops", "gauge g\n/K1=(\\d+) K2=(\\d+)/ {\n  g = ($1 & $2) | ($1 ^ 3)\n}\n", false},
-		{"orcap", "counter c by k\nconst TAGGED /K2=(?P<t>\\w+)/\n/K1=(\\w+)/ {\n  $1 == \"a\" || TAGGED {\n    c[$t]++\n  }\n}\n", true},
-		{"capother", "counter c by k\n/K1=(\\w+)/ {\n  c[$1]++\n} else {\n  c[$1]++\n}\n", true},
+		{"inc", "counter c\n/K1=(\\d+)/ {\n  c++\n}\n", true, ""},
+		{"arith", "counter c\ngauge g\n/K1=(\\d+)/ {\n  c += $1\n  g = $1 * 2 + 1\n}\n", true, ""},
+		{"dim", "counter c by k\n/K1=(\\w+)/ {\n  c[$1]++\n}\n", true, ""},
+		{"elseother", "counter a\ncounter b\ncounter o\n/K1=(\\d+)/ {\n  a++\n} else {\n  b++\n}\notherwise {\n  o++\n}\n", true, ""},
+		{"nestedother", "counter a\ncounter b\ncounter c\n/K1=(\\d+)/ {\n  a++\n} else {\n  /K2=(\\d+)/ {\n    b++\n  }\n  otherwise {\n    c++\n  }\n}\n", true, ""},
+		{"del", "counter c by k\n/K1=(\\w+)/ {\n  c[$1]++\n}\n/K2=(\\w+)/ {\n  del c[$1]\n}\n/K3=(\\w+)/ {\n  del c[$1] after 1h\n}\n", true, ""},
+		{"floatcap", "gauge g\n/K1=(\\d+\\.\\d+)/ {\n  g = $1\n}\n", true, ""},
+		{"text", "text t\n/K1=(\\S+)/ {\n  t = $1\n}\n", true, ""},
+		{"div", "gauge g\ngauge h\n/K1=(\\d+) K2=(\\d+)/ {\n  g = $1 / $2\n  h = $1 % $2\n}\n", true, ""},
+		{"shift", "gauge g\ngauge h\n/K1=(\\d+) K2=(\\d+)/ {\n  g = $1 << $2\n  h = $1 >> $2\n}\n", false, ""},
+		{"cmp", "counter c\n/K1=(\\d+)/ && $1 > 5 {\n  c++\n}\n", true, ""},
+		{"logic", "counter c\ncounter d\n/K1=(\\d+)/ || /K2=(\\d+)/ {\n  c++\n}\n/K1=(\\d+)/ && /K2=(\\d+)/ {\n  d++\n}\n", false, ""},
+		{"len", "gauge g\n/K1=(\\w+)/ {\n  g = len($1)\n}\n", false, ""},
+		{"tolower", "counter c by k\n/K1=(\\w+)/ {\n  c[tolower($1)]++\n}\n", false, ""},
+		{"strtol", "gauge g\n/K1=(\\w+)/ {\n  g = strtol($1, 16)\n}\n", false, ""},
+		{"conv", "gauge g\ngauge f\ntext s\n/K1=(\\S+) K2=(\\d+)/ {\n  g = int($1)\n  f = float($1)\n  s = string($2)\n}\n", true, ""},
+		{"settime", "gauge g\n/K1=(\\d+)/ {\n  settime($1)\n  g = timestamp()\n}\n", true, ""},
+		{"settimelen", "gauge g\n/K1=(\\w+)/ {\n  settime(len($1))\n  g = timestamp()\n}\n", true, ""},
+		{"strptime", "gauge g\n/K1=(\\S+)/ {\n  strptime($1, \"2006-01-02\")\n  g = timestamp()\n}\n", true, ""},
+		{"strptime2", "gauge g\ngauge h\n/K1=(\\S+)/ {\n  strptime($1, \"20060102\")\n  g = timestamp()\n}\n/K2=(\\S+)/ {\n  strptime($1, \"02012006\")\n  h = timestamp()\n}\n", true, ""},
+		{"stop", "counter a\ncounter b\n/K1=(\\d+)/ {\n  a++\n  stop\n}\n/K2=(\\d+)/ {\n  b++\n}\n", true, ""},
+		{"deco", "counter a\ncounter b\ndef deco {\n  /K1=(\\d+)/ {\n    a++\n    next\n  }\n}\n@deco {\n  b++\n}\n", true, ""},
+		{"filename", "counter c by f\n/K1=(\\d+)/ {\n  c[getfilename()]++\n}\n", false, ""},
+		{"histo", "histogram h buckets 1, 2, 4\n/K1=(\\d+)/ {\n  h = $1\n}\n", false, ""},
+		{"smatch", "counter c\n/K1=(\\w+)/ {\n  $1 =~ /a/ {\n    c++\n  }\n}\n", false, ""},
+		{"subst", "text t\n/K1=(\\w+)/ {\n  t = subst(\"a\", \"b\", $1)\n}\n", false, ""},
+		{"pow", "gauge g\n/K1=(\\d+)/ {\n  g = $1 ** 2\n}\n", false, ""},
+		{"bitops", "gauge g\n/K1=(\\d+) K2=(\\d+)/ {\n  g = ($1 & $2) | ($1 ^ 3)\n}\n", false, ""},
+		{"orcap", "counter c by k\nconst TAGGED /K2=(?P<t>\\w+)/\n/K1=(\\w+)/ {\n  $1 == \"a\" || TAGGED {\n    c[$t]++\n  }\n}\n", true, ""},
+		{"stoplast", "counter a\ncounter b\n/K1=(\\d+)/ {\n  a++\n} else {\n  b++\n  stop\n}\n", true, ""},
+		{"errlast", "counter a\ngauge g\n/K1=(\\d+)/ {\n  a++\n} else {\n  /K2=(\\S+)/ {\n    g = int($1)\n  }\n}\n", true, ""},
+		{"toplevel", "counter a\ncounter d\n/K1=(\\d+)/ {\n  a++\n}\nd++\nstop\n", true, ""},
+		{"capother", "counter c by k\n/K1=(\\w+)/ {\n  c[$1]++\n} else {\n  c[$1]++\n}\n", true, ""},
 	}
 }
 
 var capClass = map[string]int{
 	`[0-9]+`: 0, `-?[0-9]+`: 1, `[0-9]+\.[0-9]+`: 2, `[0-9A-Z_a-z]+`: 3, `[^\t-\n\f-\r ]+`: 4, `[^\t\n\f\r ]+`: 4,
-	`(?-s:.*)`: 5, `(?-s:.+)`: 5, `[a-z]+`: 6,
+	`(?-s:.*)`: 5, `(?-s:.+)`: 5, `[a-z]+`: 6, `[0-9]{8}`: 7,
+	`[0-9A-Z_a-z]{3} [ 0-9][0-9] [0-9][0-9]:[0-9][0-9]:[0-9][0-9]`: 8,
 }
 
 func capClasses(pattern string) ([]int, error) {
@@ -260,15 +268,23 @@ func vmGen(progs []vmProg, families map[string]string) (map[string]string, error
 		}
 		b.WriteString("}\n\n")
 		for fam, fn := range families {
-			fmt.Fprintf(&b, "func Harness%s_%s() { %s(verifObj_%s, verifCaps_%s, %q) }\n\n", fam, pr.Name, fn, pr.Name, pr.Name, pr.Name)
+			extra := ""
+			if pr.Extra != "" {
+				extra = ", " + pr.Extra
+			}
+			fmt.Fprintf(&b, "func Harness%s_%s() { %s(verifObj_%s, verifCaps_%s, %q%s) }\n\n", fam, pr.Name, fn, pr.Name, pr.Name, pr.Name, extra)
 		}
 	}
 	return map[string]string{"vm_objects.go": b.String()}, nil
 }
 
 func vmJobs(tier, fam, fn string, caplen int, only func(vmProg) bool) []JobDef {
+	return vmJobsOf(vmCorpus(), tier, fam, fn, caplen, only, []string{"vm/vmlib.go", "vm/c04.go"})
+}
+
+func vmJobsOf(corpus []vmProg, tier, fam, fn string, caplen int, only func(vmProg) bool, harness []string) []JobDef {
 	var progs []vmProg
-	for _, pr := range vmCorpus() {
+	for _, pr := range corpus {
 		if (tier == "thorough" || pr.Quick) && (only == nil || only(pr)) {
 			progs = append(progs, pr)
 		}
@@ -280,7 +296,7 @@ func vmJobs(tier, fam, fn string, caplen int, only func(vmProg) bool) []JobDef {
 	var jobs []JobDef
 	for _, pr := range progs {
 		jobs = append(jobs, JobDef{Name: fam + "-" + pr.Name, Pkg: vmPkg, Dir: "internal/runtime/vm",
-			Harness: []string{"vm/vmlib.go", "vm/c04.go"}, GenFiles: gen,
+			Harness: harness, GenFiles: gen,
 			EngineOnly: []string{"vm/vm_engine.go"}, NativeOnly: []string{"vm/vm_native.go"},
 			Entry: "Harness" + fam + "_" + pr.Name, Substs: vmSubsts, Params: p("caplen", caplen),
 			Bound: fmt.Sprintf("captures up to %d bytes; ", caplen) + "program " + pr.Name + ": " + strings.ReplaceAll(strings.TrimSpace(pr.Src), "\n", " ; ") + " -- one line; every pattern independently matches or not; captures 1..2 symbolic bytes of the group's class; every metric holds an arbitrary value (dimensioned: zero or one label set with a symbolic one-letter label)"})
@@ -317,4 +333,87 @@ func init() {
 			return jobs
 		},
 		Outside: []string{"lines_total vs the sum over all streams (whole program)", "prog_loads_total / prog_unloads_total / prog_load_errors_total (loader part, pending)", "log_count"}})
+}
+
+// ---- C07 ----
+
+type c07Blk struct {
+	Kind   string // "strptime", "settime", "none"
+	Layout string
+	Pat    string
+}
+
+type c07Prog struct {
+	Name   string
+	Blocks []c07Blk
+	Quick  bool
+}
+
+func c07Progs() []c07Prog {
+	d8 := `\d{8}`
+	sys := `\w{3} [ \d]\d \d\d:\d\d:\d\d`
+	return []c07Prog{
+		{"two", []c07Blk{{"strptime", "20060102", d8}, {"strptime", "02012006", d8}}, true},
+		{"syslog", []c07Blk{{"strptime", "Jan _2 15:04:05", sys}, {"none", "", ""}}, true},
+		{"settime", []c07Blk{{"settime", "", ""}, {"none", "", ""}}, true},
+		{"none", []c07Blk{{"none", "", ""}, {"strptime", "20060102", d8}, {"none", "", ""}}, true},
+		{"mixed", []c07Blk{{"settime", "", ""}, {"strptime", "Jan _2 15:04:05", sys}, {"strptime", "20060102", d8}}, false},
+	}
+}
+
+func c07Corpus() []vmProg {
+	var out []vmProg
+	for _, p := range c07Progs() {
+		src := "counter c\ngauge g\n"
+		useSrc := false
+		for _, b := range p.Blocks {
+			if b.Kind == "settime" {
+				useSrc = true
+			}
+		}
+		if useSrc {
+			src += "gauge src\n"
+		}
+		desc := "[]c07Block{"
+		for i, b := range p.Blocks {
+			if b.Pat == "" {
+				src += fmt.Sprintf("/K%d=x/ {\n", i+1)
+			} else {
+				src += fmt.Sprintf("/K%d=(%s)/ {\n", i+1, b.Pat)
+			}
+			switch b.Kind {
+			case "strptime":
+				src += fmt.Sprintf("  strptime($1, %q)\n", b.Layout)
+				desc += fmt.Sprintf("{c07Strptime, %q}, ", b.Layout)
+			case "settime":
+				src += "  settime(src)\n"
+				desc += "{c07Settime, \"\"}, "
+			default:
+				desc += "{c07None, \"\"}, "
+			}
+			src += "  g = timestamp()\n  c++\n}\n"
+		}
+		desc += "}"
+		out = append(out, vmProg{Name: p.Name, Src: src, Quick: p.Quick, Extra: desc})
+	}
+	return out
+}
+
+func init() {
+	as := append(append([]string{
+		"time.Parse/ParseInLocation(layout, value[, zone]) are uninterpreted functions of the value bytes per (layout, zone, length); Time.Year and Time.AddDate(y,0,0) are uninterpreted functions of the wall-clock reading in the instant's zone; counterexample models are refined against the native functions; the code under test and the oracle must apply them to the same arguments",
+		"zones: none, UTC+9 and UTC-3:30 (time.FixedZone); the process zone is UTC; layouts without zone elements",
+		"the wall clock is one arbitrary instant in [2001, 2200) for the whole run (vClockFreeze): timestamp() and the datum stamp read the same clock",
+	}, vmAssumptions...), baseAssumptions...)
+	register(&CheckDef{ID: "C07", Level: "model_checking", Only: []string{"C07."}, Assumptions: as,
+		Jobs: func(tier string) []JobDef {
+			h := []string{"vm/vmlib.go", "vm/c07.go"}
+			jobs := vmJobsOf(c07Corpus(), tier, "VM07", "vmCheckTime", 2, nil, h)
+			jobs = append(jobs, vmJobsOf(c07Corpus(), tier, "VM07K", "vmCheckTimeKnown", 2, func(pr vmProg) bool { return pr.Name == "two" }, h)...)
+			for i := range jobs {
+				jobs[i].Params["prehas"] = 1
+			}
+			return jobs
+		},
+		Outside: []string{"layouts other than 20060102, 02012006, Jan _2 15:04:05; values carrying their own zone", "IANA zones with transitions (time.LoadLocation)", "values of other lengths than the layout's", "the instant reserved to mean unset (settime: excluded by the property; strptime: listed known finding)"}})
 }
